@@ -1252,6 +1252,13 @@ class Converter:
         # loop-condition:
         # o_loop_condition = self._emit_const(True, "true", self._source_of(loop_stmt))
 
+        if not outputs:
+            self._fail(
+                loop_stmt,
+                "A loop must update at least one variable that is used after the loop "
+                "or in a later iteration.",
+            )
+
         # build loop_body
         self._enter_scope("loop_body", loop_stmt)
         onnx_loop_var_name = self._generate_unique_name(python_loop_var_name)
